@@ -108,14 +108,48 @@ def visited_pairs(o_text, args=()):
     return o, rec, lists
 
 
+def ambiguous_cterm(o):
+    """a terminal oxygen bonded to more than one carbon (CtermGroup.setup_atoms takes `the_carbons[0]`: finding D10 of C04)"""
+    for c, conf in o.mol.conformations.items():
+        for a in conf.atoms:
+            if a.terminal == 'C-' and len(a.get_bonded_elements('C')) > 1:
+                return True
+    return False
+
+
+def self_copy_diffs(base, lines):
+    """the structure followed by its own copy 500 A away under the same labels: every group of either copy keeps its results"""
+    cp = pdbgen.translate(lines, 500.0, 0.0, 0.0)
+    doubled = pdbgen.text(lines + ["TER   \n"] + cp)
+    o2 = observe.run(doubled, [], want_text=False)
+    if o2.error:
+        return ["error %r" % (o2.error,)], doubled
+    rb, r2 = by_position(base), by_position(o2)
+    d = []
+    for k, x in rb.items():
+        for kk in (k, (k[0], (round(k[1][0] + 500.0, 3), k[1][1], k[1][2]), k[2])):
+            y = r2.get(kk)
+            if y is None:
+                d.append("%s missing in the doubled structure" % x["label"])
+            elif abs(x["pka"] - y["pka"]) > 1e-9 or abs(x["e_vol"] - y["e_vol"]) > 1e-9:
+                d.append("%s pKa %r vs %r in the doubled structure" % (x["label"], x["pka"], y["pka"]))
+    return d, doubled
+
+
 def corpus_first(ctx):
     """witnesses of listed findings run first, so that a listed finding is reported on every run while it persists"""
     import json
     for f in sorted(common.CORPUS.glob("C06-*.json")):
         rep = json.loads(f.read_text())
         r = rep["replay"]
-        a, b = observe.run(r["original"], want_text=False), observe.run(r["pdb"], want_text=False)
         ctx.case(key=("corpus", f.name))
+        if r.get("kind") == "self-copy":
+            a = observe.run(r["original"], want_text=False)
+            d, doubled = self_copy_diffs(a, pdbgen.lines_of(r["original"]))
+            if d:
+                ctx.violate(rep["signature"], "corpus witness %s: %s" % (f.name, "; ".join(d[:2])), dict(r, pdb=doubled, diffs=d[:3]))
+            continue
+        a, b = observe.run(r["original"], want_text=False), observe.run(r["pdb"], want_text=False)
         if not (a.error or b.error):
             d = compare(a, b)
             if d:
@@ -157,27 +191,17 @@ def run(ctx):
                 d = ["error %r" % (o1.error,)] if o1.error else compare(base, o1)
                 if d:
                     twin_bad.append((name, d[:3], pdbgen.text(tw), text, twnum))
-            # the structure followed by its own copy, 500 A away, under the same chain ids
-            if rnd.random() < 0.5:
-                cp = pdbgen.translate(lines, 500.0, 0.0, 0.0)
-                o2 = observe.run(pdbgen.text(lines + ["TER   \n"] + cp), [], want_text=False)
+            # the structure followed by its own copy, 500 A away, under the same chain ids (single-conformation inputs:
+            # with alternate locations the copies' atoms share every label and the label-keyed completion of conformations,
+            # C08's subject, cannot tell them apart - that is an ambiguous input, not a relabelling)
+            # and no terminal oxygen bonded to two carbons: which carbon defines that carboxylate depends on the frame - D10,
+            # recorded under C04 - and the copy lives in another frame)
+            if rnd.random() < 0.5 and len(base.mol.conformation_names) == 1 and not ambiguous_cterm(base):
                 ctx.case(key=(name, "copy", hash(text)), nontrivial=True)
                 ctx.count("self-copy variants")
-                if o2.error:
-                    copy_bad.append((name, ["error %r" % (o2.error,)], pdbgen.text(lines + ["TER   \n"] + cp)))
-                else:
-                    rb = by_position(base)
-                    r2 = by_position(o2)
-                    d = []
-                    for k, x in rb.items():
-                        for kk in (k, (k[0], (round(k[1][0] + 500.0, 3), k[1][1], k[1][2]), k[2])):
-                            y = r2.get(kk)
-                            if y is None:
-                                d.append("%s missing in the doubled structure" % x["label"])
-                            elif abs(x["pka"] - y["pka"]) > 1e-9 or abs(x["e_vol"] - y["e_vol"]) > 1e-9:
-                                d.append("%s pKa %r vs %r in the doubled structure" % (x["label"], x["pka"], y["pka"]))
-                    if d:
-                        copy_bad.append((name, d[:3], pdbgen.text(lines + ["TER   \n"] + cp)))
+                d, doubled = self_copy_diffs(base, lines)
+                if d:
+                    copy_bad.append((name, d[:3], doubled, text))
     for b in rel_bad[:2]:
         ctx.violate("relabel:" + b[1].split("+")[0].split("-")[0], "%s relabelled (%s): %s" % (b[0], b[1], "; ".join(b[2])), dict(pdb=b[3], original=b[4], diffs=b[2]))
     ctx.oblige("spec: chain renaming and residue-number shifts change only labels (every group by file position, 1e-9)", not rel_bad, str([(b[0], b[1], b[2][:1]) for b in rel_bad[:2]]))
@@ -194,7 +218,7 @@ def run(ctx):
                not twin_unlisted, str([(b[0], b[1][:1]) for b in twin_unlisted[:2]]))
     ctx.coverage["known_finding_instances"] = len(twin_bad) - len(twin_unlisted)
     for b in copy_bad[:2]:
-        ctx.violate("D5:label-equality-in-pair-loops", "%s followed by its own copy 500 A away (same chain ids): %s" % (b[0], "; ".join(b[1])), dict(pdb=b[2], diffs=b[1]))
+        ctx.violate("D5:label-equality-in-pair-loops", "%s followed by its own copy 500 A away (same chain ids): %s" % (b[0], "; ".join(b[1])), dict(kind="self-copy", pdb=b[2], original=b[3], diffs=b[1]))
     ctx.oblige("spec: a structure followed by its own distant copy under the same labels keeps every group's results", not copy_bad, str([(b[0], b[1][:1]) for b in copy_bad[:2]]))
     if ctx.driver_ok and loops:
         reqs = ["pairloop id %d" % n for _, n, _, _, _ in loops]
